@@ -69,6 +69,7 @@ func FileText(ls []Line) string {
 }
 
 var badIPs = []string{"", "1.2.3", "abc", "1.2.3.256", "1.2.3.4/24", " 1.2.3.4", "01.2.3.4", "1.2.3.4.5", "1.2.3.4 ", "fe80::1%eth0", ":::", "1..2.3"}
+
 // out-of-range ports, also values that are a valid port only after truncation to 16 or 32 bits
 var badPorts = []int64{0, 65536, -1, 100000, 2147483647, -65535, 65537, 1 << 32, 1<<32 + 80, 1<<32 + 443, 1<<32 + 65535, 1<<32 + 1,
 	1<<63 - 1, -(1 << 32) + 80, 1<<16 + 22, 1<<48 + 8080, -(1 << 16) + 80, 1 << 31, 1<<31 + 80}
